@@ -96,6 +96,11 @@ func VerifC05_PartitionDeploymentRoundTrip() {
 	verifrt.Cover("C05.partdeploy.done")
 }
 
+// C18: Finalize returning nil is what lets the BatchRelease go Completed and lose its finalizer: whatever the exit
+// (promoted, or deleted / cancelled with the partition still set) a Finalize that succeeds has given the Deployment
+// back — the control marker is gone (C05.partdeploy.finalize.controlMarkerRemoved of the round-trip relation).
+func VerifC18_PartitionDeploymentFinalizeReleasesTheWorkload() { VerifC05_PartitionDeploymentRoundTrip() }
+
 // VerifC01_PartitionDeploymentInitializeStartsFromZero: for a partition-style Deployment the partition in the strategy
 // annotation *is* the number of new-revision pods the advanced controller will run.  A release that takes the
 // Deployment over must therefore start it at partition 0 whatever an earlier, withdrawn release left in that
